@@ -47,6 +47,26 @@ def check_sites(ea: EnvAnalysis, ax: Axes, conflicts) -> List[dict]:
                 idx, ext = (a, b) if ka[0] == "idx" else (b, a)
                 out.append(dict(kind="bounds test", term=t, ok=ok,
                                 detail=f"index {txt(idx, 3, 50)} is on {A[ax.axis(idx)]} [{ax.reason(idx)[:70]}]; extent {txt(ext, 3, 40)} is {A[ax.axis(ext)]} [{ax.reason(ext)[:50]}]"))
+        elif k == "index" and t.args[1].kind == "tuple" and any(x.kind == "slice" for x in t.args[1].args[0]):
+            # G[:, :E] -- a slice bound along subscript position p must be the extent of axis p
+            items = t.args[1].args[0]
+            base = t.args[0]
+            if base.kind == "attr" and base.args[1] == "at":
+                base = base.args[0]
+            if 2 <= len(items) <= 3 and not (base.kind == "attr" and base.args[1] == "shape"):
+                off = len(items) - 2  # leading channel axis when three subscripts
+                if len(items) == 3 and not (items[0].kind in ("const",) or items[0].kind == "slice"):
+                    off = None
+                if off is not None:
+                    for pos, it in enumerate(items):
+                        axis = pos - off
+                        if it.kind != "slice" or axis not in (0, 1):
+                            continue
+                        for bound in (it.args[0], it.args[1]):
+                            kb = ax.kind(bound)
+                            if kb and kb[0] == "ext":
+                                out.append(dict(kind="slice bound", term=t, ok=kb[1] == axis,
+                                                detail=f"slice along {A[axis]} is bounded by {txt(bound, 3, 40)}, the extent of {A[kb[1]]} [{ax.reason(bound)[:50]}]"))
         elif k == "bin" and t.args[0] == "%":
             a, b = t.args[1], t.args[2]
             ka, kb = ax.kind(a), ax.kind(b)
